@@ -85,7 +85,7 @@ THEOREMS = {
     'C03_output_only_write_newline': 'no built-in other than write$ / newline$ (and the three that execute code) touches the emitted lines or the buffer',
     'C03_straight_line_fuel': 'fuel SUFFICES for straight-line code: for every state s and every function body whose elements are literals, function literals, quoted names, or names that are unbound or bound in s to anything but a FUNCTION and the built-ins if$ / while$ / call.type$ (hypothesis straight s.vars body), the run finishes (state or error other than out-of-fuel) within length + 3 units of fuel and every larger amount of fuel gives the very same result; no claim for bodies that call functions, if$, while$ or call.type$',
     'C03_sort_only': '[model wiring] the function-level entry sortOnly (driver op bstsort, compared with Interpreter.command_sort) is the SORT command of the model on the state holding exactly the given citation list and sort.key$ entries, whatever the fuel and the run parameters - so C03_sort / C03_sort_unique speak about what that op computes',
-    'C03_tables_match_source': 'the tables the model hard-codes are those of the source tree of this run (Gen/BstBuiltins.lean, regenerated every run; by evaluation): builtinTable has exactly the keys of pybtex.bibtex.builtins.builtins; initVars holds besides them exactly global.max$ = 20000 and entry.max$ = 250 (Integer) and sort.key$ (EntryString); runCommand has a branch for exactly the command_* methods of Interpreter, and every command the .bst parser accepts (BstParser.COMMANDS) is one of them, so the Unknown-command branch of Interpreter.run is unreachable from a parsed file',
+    'C03_tables_match_source': '[table tie, by evaluation] the tables the model hard-codes against Gen/BstBuiltins.lean (regenerated every run): builtinTable has exactly the keys of pybtex.bibtex.builtins.builtins; initVars holds besides them exactly global.max$ = 20000, entry.max$ = 250 (Integer) and sort.key$ (EntryString); runCommand has a branch for every command_* method of Interpreter (an unknown name, tested on the one sample "NOSUCH", reaches the unknown-command error - no \'only these\' claim); every command the .bst parser accepts (BstParser.COMMANDS) is one of the methods, so the Unknown-command branch of Interpreter.run is unreachable from a parsed file',
     'C03_apply_named': '[model wiring] the function-level entry applyNamed (driver op bstbuiltin, compared with vars[name].execute(interpreter)) is execTok of the name with one more unit of fuel, for a bound name',
 }
 RULE = ('well-typed straight-line programs: every sequence of up to the tier length of typed units (literals from the operand pool, '
